@@ -267,6 +267,30 @@ class C01(ValProp):
             out.append(show(['zh', d]))
         out += chunk_exact_cases(g, n // 6)
         out += boundary_hist_cases(g, n // 6)
+        r = g.rng
+        for _ in range(n // 8):
+            # huge limits around powers of two (chunk counts 2**k - 1, 2**k, 2**k + 1, 2**k + small), small values
+            k = r.choice([40, 49, 50, 52, 53, 56, 60, 62])
+            chunks = (1 << k) + r.choice([-1, 0, 1, 1, 2, 3, 7])
+            c = r.randrange(4)
+            if c == 0:
+                t = ['list', 'u256', chunks]
+            elif c == 1:
+                t = ['bl', 256 * chunks + r.choice([0, 1, -255])]
+            elif c == 2:
+                t = ['Bl', 32 * chunks + r.choice([0, 1, -31])]
+            else:
+                t = ['list', r.choice([['cont', 'u8', 'u16'], ['Bv', 48], 'u64']), chunks * (4 if False else 1)]
+            v = g.val(t, 3)
+            if r.random() < 0.3:
+                t, v = ['cont', 'u8', t], ['s', '1', v]
+            out.append(show(['val', t, v]))
+            out.append(show(['type', t]))
+        # mutations through child views (union values, fields, elements) of already hashed values
+        for _ in range(n // 8):
+            t = nested_ty(g, r.choice([1, 2, 2]))
+            v = g.val(t, 8)
+            out.append(show(['store', t, v] + StoreGen(g, t, v).history(r.choice([6, 15]))))
         return out
 
     def compare(self, case, py, mo, stats):
@@ -308,6 +332,8 @@ class C01(ValProp):
                 if a != b:
                     out.append(F('prop', 'root(after op %d)' % i, a, b))
                     break
+        elif k == 'store':
+            return StoreProp.compare_store(self, case, py, mo, stats, 'views')
         elif k == 'zh':
             if py.get('p.zh') != mo.get('zh'):
                 out.append(F('prop', 'zero_hashes[%s]' % case[1], py.get('p.zh'), mo.get('zh')))
@@ -851,8 +877,22 @@ class C11(Prop):
                 t, v = self.tv(g, tier)
                 out.append(show(['val', t, v]))
                 out.append(show(['type', t]))
-        # variable-size types whose bounds coincide (limit 0, a lone None option, ...) as fields / elements / options
+        # size facts of types with huge lengths / limits (beyond 2**53, where floating point arithmetic rounds)
         r = g.rng
+        for _ in range(self.n(tier) // 8):
+            big = r.choice([2**53, 2**56, 2**60, 2**63, 2**64, 2**100]) + r.choice([0, 1, 1, 3, 7, 8, 9, 24, 255, 257, -1])
+            e = r.choice(['u8', 'u16', 'u64', 'u256', 'bool', ['Bv', 3], ['cont', 'u8', 'u64']])
+            t = r.choice([['bv', big], ['bl', big], ['Bv', big], ['Bl', big], ['vec', e, big], ['list', e, big]])
+            c = r.random()
+            if c < 0.2 and t[0] in ('list', 'bl', 'Bl'):
+                # (a container class is exercised by the harness when it is built: only fields with small defaults)
+                t = ['cont', 'u8', t, 'u16']
+            elif c < 0.3:
+                t = ['union', 'none', t]
+            elif c < 0.4:
+                t = ['vec', t, 3]
+            out.append(show(['tsize', t]))
+        # variable-size types whose bounds coincide (limit 0, a lone None option, ...) as fields / elements / options
         for _ in range(self.n(tier) // 8):
             odd = lambda: r.choice([['list', r.choice(['u8', 'u64', ['cont', 'u8']]), 0], ['bl', 0], ['Bl', 0],
                                     ['union', 'u8'], ['union', ['Bv', 3], ['vec', 'u8', 3]], ['list', ['list', 'u8', 0], 0],
@@ -865,7 +905,7 @@ class C11(Prop):
 
     def compare(self, case, py, mo, stats):
         out = []
-        if case[0] == 'type':
+        if case[0] in ('type', 'tsize'):
             bump(stats, 'kinds', 'type:' + kind(case[1]))
             if py.get('p.fixed') != mo['fixed']:
                 out.append(F('prop', 'is_fixed_byte_length', py.get('p.fixed'), mo['fixed']))
@@ -902,6 +942,18 @@ class C12(Prop):
             out.append(show(['type', t]))
             if g.rng.random() < 0.3:
                 out.append(show(['val', t, g.zero(t)]))
+        # families of types that differ only in a parameter of an inner type (same outer shape, same printed name
+        # of the element class), defaulted one after the other in the same process
+        r = g.rng
+        for _ in range(self.n(tier) // 10):
+            k = r.choice(['Bv', 'bv', 'bl', 'Bl', 'vecu', 'cont'])
+            sizes = r.sample([1, 5, 31, 32, 33, 48, 96, 100, 256, 257, 300, 600], 3)
+            n = r.choice([1, 2, 3, 4, 5])
+            for sz in sizes:
+                e = {'vecu': ['vec', 'u8', sz], 'cont': ['cont', 'u8', ['Bv', sz]]}.get(k, [k, sz])
+                outer = r.choice([['vec', e, n], ['list', e, n], ['cont', 'u8', ['vec', e, n]], ['vec', ['vec', e, n], 2], ['union', 'none', ['vec', e, n]]])
+                out.append(show(['type', ['vec', e, n]]))
+                out.append(show(['type', outer]))
         return out
 
     def compare(self, case, py, mo, stats):
@@ -1082,6 +1134,11 @@ class C15(ValProp):
             v = boundary_value(g, t, v)
             ops, _ = g.ops(t, v, g.rng.choice([4, 10, 25]))
             out.append(show(['histf', t, v] + ops))
+        # hash() of every held view after mutations through child views (against a brand-new view of the same backing)
+        for _ in range(self.n(tier) // 5):
+            t = nested_ty(g, g.rng.choice([1, 2, 2]))
+            v = g.val(t, 8)
+            out.append(show(['store', t, v] + StoreGen(g, t, v).history(g.rng.choice([6, 15]))))
         # pairs
         for _ in range(self.n(tier) // 3):
             t, v = self.tv(g, tier)
@@ -1127,6 +1184,14 @@ class C15(ValProp):
                 if a != b:
                     out.append(F('corr', 'stack iterator %s %s on a raw tree' % (c[0], show(c[1:])), a, b))
             return out
+        if case[0] == 'store':
+            bump(stats, 'kinds', 'store:' + kind(case[1]))
+            for i, op in enumerate(case[3:]):
+                h = py.get('%d.hashes' % i)
+                if h is not None and set(h) - {'1'}:
+                    out.append(F('prop', 'hash() of a held view differs from hash() of a new view of the same backing after op %d %s (one flag per held view)' % (i, show(op)), h, 'all 1'))
+                    break
+            return out + [f for f in StoreProp.compare_store(self, case, py, mo, None, 'views') if f['cls'] != 'prop']
         if case[0] == 'histf':
             bump(stats, 'kinds', 'hist:' + kind(case[1]))
             for i, op in enumerate(case[3:]):
@@ -1491,6 +1556,10 @@ class C08(Prop):
     def bad_key(self, g, t):
         k = kind(t)
         r = g.rng
+        if r.random() < 0.25 and not is_basic(t):
+            # negative keys (python's negative indexing must not leak into paths)
+            n = t[2] if k in ('vec', 'list') else t[1] if k in ('bv', 'bl', 'Bv', 'Bl') else len(t) - 1
+            return r.choice([-1, -2, -max(n, 1), -max(n, 1) - 1])
         if k in ('vec', 'list'):
             return t[2] + r.choice([0, 1])
         if k in ('bv', 'bl', 'Bv', 'Bl'):
@@ -1551,9 +1620,18 @@ class StoreProp(Prop):
                 t = nested_ty(g, r.choice([1, 2, 2, 3]))
                 v = g.val(t, 12)
             sg = StoreGen(g, t, v)
-            ops = sg.history(g.rng.choice([6, 15, 40] if tier == 'quick' else [6, 15, 40, 100]), self.p_bad)
-            out.append(show(['store', t, v] + ops))
+            ops = sg.history(g.rng.choice([6, 15, 40] if tier == 'quick' else [6, 15, 40, 100]), self.p_bad, 0.06)
+            # one in four histories runs LAZILY: nothing is hashed or read before the end
+            out.append(show(['storel' if k % 4 == 3 else 'store', t, v] + ops))
         return out
+
+    def shrink_candidates(self, case):
+        for c in Prop.shrink_candidates(self, case):
+            yield c
+        if case[0] == 'storel':
+            ops = case[3:]
+            for i in range(len(ops) - 1, -1, -1):
+                yield case[:3] + ops[:i] + ops[i + 1:]
 
     def nontrivial(self, c):
         return c.count('(mut') >= 1 and (c.count('(child') + c.count('(copy') + c.count('(snap')) >= 1
@@ -1563,6 +1641,8 @@ class StoreProp(Prop):
         out = []
         if py.get('p.ctor') == 'err' or mo.get('i.ctor') == 'err':
             return [F('prop', 'ctor', py.get('p.ctor'), mo.get('i.ctor'))]
+        if stats is not None:
+            bump(stats, 'sizes', 'lazy' if case[0] == 'storel' else 'observed-every-step')
         for i, op in enumerate(case[3:]):
             bump(stats, 'ops', op[0] + (':' + op[2][0] if op[0] in ('mut', 'bad') else ''))
             p = '%d.' % i
@@ -1570,12 +1650,20 @@ class StoreProp(Prop):
                 cls = 'prop' if op[0] == 'bad' else 'corr'
                 out.append(F(cls, 'op %d %s ok/err' % (i, show(op)), py.get(p + 'p'), mo.get(p + 'i')))
                 break
+            if case[0] == 'storel':
+                continue
             a, b = py.get(p + what), mo.get(p + what)
             if a != b:
                 av, bv = (a or '').split(','), (b or '').split(',')
                 idx = [j for j in range(max(len(av), len(bv))) if (av[j] if j < len(av) else None) != (bv[j] if j < len(bv) else None)]
                 out.append(F('prop', '%s %s differ after op %d %s' % (what, idx, i, show(op)), a, b))
                 break
+        if case[0] == 'storel' and not out:
+            a, b = py.get('end.' + what), mo.get('end.' + what)
+            if a != b:
+                av, bv = (a or '').split(','), (b or '').split(',')
+                idx = [j for j in range(max(len(av), len(bv))) if (av[j] if j < len(av) else None) != (bv[j] if j < len(bv) else None)]
+                out.append(F('prop', '%s %s differ at the end of a history in which nothing was hashed or read on the way' % (what, idx), a, b))
         return out
 
 
